@@ -3,6 +3,7 @@ package model
 import (
 	"errors"
 	"fmt"
+	"github.com/Oudwins/zog/zconst"
 	"reflect"
 	"regexp"
 	"runtime/debug"
@@ -996,7 +997,9 @@ func (e *Env) execOpts(x Exec) []z.ExecOption {
 	for _, kv := range x.CtxVals {
 		out = append(out, z.WithCtxValue(kv.K, kv.V.Go()))
 	}
-	if x.Formatter != "" {
+	if x.Formatter == TemplateFormatter {
+		out = append(out, z.WithIssueFormatter(conf.NewDefaultFormatter(templateLangMap())))
+	} else if x.Formatter != "" {
 		marker := x.Formatter
 		out = append(out, z.WithIssueFormatter(func(is *z.ZogIssue, ctx z.Ctx) { is.SetMessage(marker) }))
 	} else if x.LogIssues {
@@ -1006,6 +1009,31 @@ func (e *Env) execOpts(x Exec) []z.ExecOption {
 		}))
 	}
 	return out
+}
+
+// TemplateFormatter as Exec.Formatter installs the library's own default formatter over a message catalogue whose
+// templates use several placeholders each (the test's parameter and the keys of z.Params given by the generators).
+const TemplateFormatter = "@templates"
+
+var tmplMap zconst.LangMap
+
+func templateLangMap() zconst.LangMap {
+	if tmplMap != nil {
+		return tmplMap
+	}
+	m := zconst.LangMap{}
+	for typ, msgs := range conf.DefaultIssueMessageMap {
+		mm := map[zconst.ZogIssueCode]string{}
+		for code, msg := range msgs {
+			mm[code] = msg + " [k1={{k1}} min={{min}} k1={{k1}} " + code + "={{" + code + "}}]"
+		}
+		for _, code := range []string{"my_code", "custom", "x", "cc", "custom_fail", "ord"} {
+			mm[code] = "between {{min}} and {{k1}} ({{k1}}/{{max}}/{{min}})"
+		}
+		m[typ] = mm
+	}
+	tmplMap = m
+	return m
 }
 
 // Run executes schema on data (Parse) or on the destination itself (Validate).
